@@ -142,6 +142,18 @@ MUTATIONS = [
     ("merge_cond2: fallback product with swapped factors (shape error => holes)", "mul.rs",
      "unwrap_or_else(|| Product2::product2(ax1, ax2))", "unwrap_or_else(|| Product2::product2(ax2, ax1))",
      ("exact", 3, {"gen_merge_cond2_unlabeled_eq", "gen_merge_cond2_labeled_eq"})),
+    ("guard group: product3_iter re-associated w0*(w1*w2) (only the labelled product3 becomes a hole)",
+     "multi_array/labeled.rs", "iproduct!(w0, w1, w2).map(|(&v0, &v1, &v2)| v0 * v1 * v2)",
+     "iproduct!(w0, product2_iter(w1, w2)).map(|(&v0, v12)| v0 * v12)", ("exact", 3, {"gen_product3_labeled_eq"})),
+    ("guard group: MArr2::product2 swaps d[0] / d[1] (unlabelled product2 and its merge_cond2 become holes)",
+     "multi_array/non_labeled.rs", "Self::from_fn(|d| w0[d[0]] * w1[d[1]])", "Self::from_fn(|d| w0[d[1]] * w1[d[0]])",
+     ("exact", 3, {"gen_product2_eq", "gen_merge_cond2_unlabeled_eq"})),
+    ("guard group: product2_iter commuted v1*v0 (labelled product2 and its merge_cond2 become holes)",
+     "multi_array/labeled.rs", "iproduct!(w0, w1).map(|(&v0, &v1)| v0 * v1)", "iproduct!(w0, w1).map(|(&v0, &v1)| v1 * v0)",
+     ("exact", 3, {"gen_product2_labeled_eq", "gen_merge_cond2_labeled_eq"})),
+    ("guard group: MArrD3::product3 no longer built from product3_iter", "multi_array/labeled.rs",
+     "Self::from_iter(product3_iter(w0, w1, w2))", "Self::from_iter(product3_iter(w0, w2, w1))",
+     ("exact", 3, {"gen_product3_labeled_eq"})),
     ("into_opinion: no base-rate check", "mul/non_labeled.rs", "check_base_rate(&a)?;\n        Ok(Opinion1d {",
      "Ok(Opinion1d {", "gen_Simplex1d_into_opinion_eq"),
     ("product2 (labelled): (p - b) -> (b - p)", "mul/labeled.rs",
